@@ -550,11 +550,15 @@ var unknownDumpN int32
 
 func (s *Solver) dumpStack(res string) {
 	n := atomic.AddInt32(&unknownDumpN, 1)
-	if n > 20 {
+	if n > 5 {
 		return
 	}
+	script := s.script(res)
+	if len(script) > 4<<20 {
+		return // disk space is limited: only small queries are kept for inspection
+	}
 	os.MkdirAll("/verif/.work", 0o755)
-	os.WriteFile(fmt.Sprintf("/verif/.work/unknown-%d-%d.smt2", os.Getpid(), n), []byte(s.script(res)), 0o644)
+	os.WriteFile(fmt.Sprintf("/verif/.work/unknown-%d-%d.smt2", os.Getpid(), n), []byte(script), 0o644)
 }
 
 // fallback solves the current stack non-incrementally with cvc5 and then z3-new.
